@@ -29,6 +29,7 @@ Code(c) == CASE c = "chainInput"    -> "INT-01"   \* chain k input = output of c
              [] c = "indexCont"     -> "INT-12"   \* index of chain k-1 extends the index of chain k
              [] c = "inputAlg"      -> "INT-13"   \* input hash algorithm not deprecated at signing time
              [] c = "aggrAlg"       -> "INT-15"   \* aggregation algorithm not deprecated at aggregation time
+             [] c = "chainLevel"    -> "ERR"      \* a link's level correction takes the level out of 0..255: not a verdict, the chain cannot be evaluated
              [] c = "docHash"       -> "GEN-01"
              [] c = "docLevel"      -> "GEN-03"
              [] c = "docAlg"        -> "GEN-04"
@@ -70,7 +71,7 @@ RuleOut(s, r) ==
       [] r = "AggregationChainHashAlgorithmVerification" -> Unless(s, "aggrAlg")
       [] r = "AggregationHashChainIndexContinuation" -> Unless(s, "indexCont")
       [] r = "AggregationHashChainTimeConsistency" -> Unless(s, "chainTime")
-      [] r = "AggregationHashChainConsistency" -> Unless(s, "chainInput")
+      [] r = "AggregationHashChainConsistency" -> IF Has(s, "chainLevel") THEN Err ELSE Unless(s, "chainInput")
       [] r = "AggregationHashChainIndexConsistency" -> Unless(s, "indexShape")
       [] r = "CalendarHashChainDoesNotExist" -> Present(~s.cal)
       [] r = "CalendarHashChainExistence" -> Present(s.cal)
@@ -118,8 +119,9 @@ Verdict(s) == EvalList(s, InternalRules, 1)
 
 (* ---- (1) the declarative oracle: which verdicts the property allows ---- *)
 Allowed(s) ==
-    LET fails == {[rc |-> "OK", res |-> "FAIL", code |-> Code(c)] : c \in Violated(s)}   \* one violated condition: exactly its code
-    IN IF s.level = "huge" THEN {[rc |-> "ERR"]} \cup fails                             \* a level above 255 is refused as invalid input
+    LET fails == {[rc |-> "OK", res |-> "FAIL", code |-> Code(c)] : c \in Violated(s) \ {"chainLevel"}}   \* one violated condition: exactly its code
+    IN IF s.level = "huge" \/ Has(s, "chainLevel")
+         THEN {[rc |-> "ERR"]} \cup fails       \* a level above 255, or a chain whose level leaves 0..255, is refused as invalid: an error or another condition's FAIL, never OK
        ELSE IF Violated(s) = {} THEN {[rc |-> "OK", res |-> "OK", code |-> "-"]}
        ELSE fails
 
